@@ -104,6 +104,7 @@ def check_grammar(cfg, start, prods, inputs, acc, modes=(True, False)):
         feats.add("cfg:keywords-synonyms")
     nontrivial = False
     verdicts = {}
+    built = set()
     pmaps = {}
     n_valid = 0
     for smart in modes:
@@ -119,6 +120,7 @@ def check_grammar(cfg, start, prods, inputs, acc, modes=(True, False)):
                 verdicts[smart] = res
                 continue
             feats.add("mode:" + mode)
+            built.add(smart)
             try:
                 suffixes = set(p._suffix_symbols)
                 if suffixes:
@@ -176,8 +178,12 @@ def check_grammar(cfg, start, prods, inputs, acc, modes=(True, False)):
         feats.add("grammar:modes-differ-in-productions")
     if len(verdicts) == 2 and verdicts[True] != verdicts[False]:
         feats.add("modes:verdicts-differ")
-    outcome = "/".join(("acc" if "T" in verdicts.get(m, "") else
-                        "rej" if verdicts.get(m, "x")[:1] in ("P", "") else "other") for m in modes)
+    def label(m):
+        v = verdicts.get(m, "")
+        if m not in built:
+            return "not-built"
+        return "accepts" if "T" in v else ("aborted" if "a" in v else "rejects-all")
+    outcome = "/".join(label(m) for m in modes)
     return sorted(feats), nontrivial, outcome, n_valid
 
 
